@@ -387,15 +387,17 @@ theorem frun_RIF (F : List Nat) (ops : List FOp) (t : FT) (es : Spec) (h : RIF t
 /-- **C20, FasterTrie** (`fastertrie_refines_spec`): for every factor space, every history of
     insert / erase(id, key) calls within the preconditions (non-empty valid keys; stale or never-issued ids
     allowed in erase), the model never fails, and `filter(f)` for every full or prefix assignment `f` returns,
-    as a set, exactly the ids of the stored entries compatible with `f`; every stored key the
-    reconstruction can meet is valid, so `reconstruct_compatible` applies in every reachable state. -/
+    as a set, exactly the ids of the stored entries compatible with `f`, each id once; `size()` is the
+    number of stored entries; every stored key the reconstruction can meet is valid, so
+    `reconstruct_compatible` applies in every reachable state. -/
 theorem fastertrie_refines_spec (F : List Nat) (ops : List FOp) (hok : FHistOK F ([], 0) ops) :
     ∃ t, ops.foldl fstep (some (FT.new F)) = some t ∧ RIF t (ops.foldl fspecStep ([], 0)).1 ∧
       (∀ f id, f.length ≤ F.length → (∀ j, j < f.length → f.getD j 0 < F.getD j 0) →
         (id ∈ t.filter f ↔ id ∈ specFilter (ops.foldl fspecStep ([], 0)).1 (prefixPF 0 f))) ∧
-      (∀ i v, ∀ e ∈ bucket t.keys i v, ValidPF t.F e.2) := by
+      (∀ i v, ∀ e ∈ bucket t.keys i v, ValidPF t.F e.2) ∧
+      (∀ f, (t.filter f).Nodup) ∧ t.size = (ops.foldl fspecStep ([], 0)).1.length := by
   obtain ⟨t, hr, hRI, hF⟩ := frun_RIF F ops (FT.new F) [] (RIF_new F) rfl hok
-  refine ⟨t, hr, hRI, ?_, ?_⟩
+  refine ⟨t, hr, hRI, ?_, ?_, fun f => ft_filter_nodup hRI f, ft_size_spec hRI⟩
   · intro f id hlen hval
     exact ft_filter_mem hRI f (by rw [hF]; exact hlen) (by rw [hF]; exact hval) id
   · intro i v e he
